@@ -235,6 +235,11 @@ class MEIExporter:
         for note in chord:
             duration = self._handle_note_or_rest(note, chord_el)
         chord_el.set("dur", duration)
+        # the duration of a chord is read from the chord element: it needs
+        # the dots as well
+        dots = (chord[0].symbolic_duration or {}).get("dots")
+        if dots:
+            chord_el.set("dots", str(dots))
 
     def _handle_note_or_rest(self, note, xml_voice_el):
         if isinstance(note, spt.Rest):
